@@ -235,9 +235,11 @@ class Fxp():
 
         # store the value
         if raw and not _initialized and isinstance(n_frac, int) and isinstance(self.n_frac, int) and self.n_frac != n_frac \
-                and isinstance(val, (int, np.integer, list, tuple, np.ndarray)) and np.asarray(val).dtype.kind in 'iuO':
+                and isinstance(val, (int, np.integer, list, tuple, np.ndarray)):
             # (the word was limited and the fraction length shortened by the size search: the raw value was given for the fraction length asked)
-            val = utils.scale_raw(np.asarray(val) if not isinstance(val, int) else val, self.n_frac - n_frac)
+            _raw_val = np.array(val, dtype=object) if isinstance(val, (list, tuple)) else np.asarray(val)
+            if _raw_val.dtype.kind in 'iu' or (_raw_val.dtype == object and all(isinstance(v, (int, np.integer)) for v in _raw_val.ravel().tolist())):
+                val = utils.scale_raw(val if isinstance(val, int) else _raw_val, self.n_frac - n_frac)
         self.set_val(val, raw=raw)
 
         if dtype is not None and complex_flag and self.vdtype != complex:
